@@ -127,7 +127,7 @@ def build(c):
     """object under test, reference unit quaternions (n,4) of the data as stored, shape"""
     I = _imp()
     shp = tuple(c["shape"])
-    data = np.array(c["q"], float).reshape(shp + (4,)) * float(c.get("scale", 1.0))
+    data = common.relayout(np.array(c["q"], float).reshape(shp + (4,)) * float(c.get("scale", 1.0)), c["q"])
     dt = c.get("dtype", "float64")
     if dt == "float32":
         data = data.astype(np.float32)
